@@ -2,7 +2,7 @@
 From Coq Require Import List NArith Bool Lia.
 From GV Require Import Model.Walk.
 Import ListNotations.
-Open Scope N_scope.
+Local Open Scope N_scope.
 
 (* induction principle through the nested lists *)
 Section Ind.
